@@ -2,6 +2,7 @@ import ComposeVerif.Lemmas.C02StageNormalize
 import ComposeVerif.Lemmas.C02StageWalk
 import ComposeVerif.Lemmas.C02StageDefaults
 import ComposeVerif.Lemmas.C02StageInterp
+import ComposeVerif.Lemmas.C02StagePaths
 /-!
 # C02 — `stage_perm`: the loader stages do not depend on the order in which Go ranges over mappings
 
@@ -98,6 +99,17 @@ interpolations fail (which variable / cast error is reported first may depend on
 theorem interpolate_stage_perm (c : CV.Interp.Cfg) (p : TPath) {v w : Val}
     (h : CV.Deep.Eqv v w) (wv : CV.Deep.WF v) (ww : CV.Deep.WF w) :
     ORel CV.Deep.Eqv (optI (CV.Interp.interp c p v)) (optI (CV.Interp.interp c p w)) := interp_eqv c p h wv ww
+
+/-- **`paths.ResolveRelativePaths` as a whole tree walk** (C12's model `CV.Paths.walk`, any table and configuration, all
+seven resolvers): trees equivalent up to the order of mapping entries at any depth resolve to equivalent trees, or both
+walks fail -/
+theorem resolvePaths_stage_perm (t : CV.Paths.Table) (cfg : CV.Paths.Cfg) (p : TPath) {v w : Val}
+    (h : CV.Deep.Eqv v w) (wv : CV.Deep.WF v) (ww : CV.Deep.WF w) :
+    PRel CV.Deep.Eqv (CV.Paths.walk t cfg p v) (CV.Paths.walk t cfg p w) := walk_eqv t cfg p h wv ww
+
+/-- in particular for `ResolveRelativePaths` itself, on the regenerated resolver table -/
+theorem resolve_stage_perm (cfg : CV.Paths.Cfg) {v w : Val} (h : CV.Deep.Eqv v w) (wv : CV.Deep.WF v) (ww : CV.Deep.WF w) :
+    PRel CV.Deep.Eqv (CV.Paths.resolve cfg v) (CV.Paths.resolve cfg w) := walk_eqv _ cfg _ h wv ww
 
 /-- the walker loop for recursive calls that respect the equivalence (the core of the whole-tree theorems) -/
 theorem walker_loop_deep (g g' : String → Val → Option Val) {a b : KVs} (hm : CV.Deep.MEqv a b)
